@@ -4,7 +4,7 @@
 # Prints one line per change: CAUGHT (exit 1) / MISSED (exit 0) / ERROR (exit 2) / NOAPPLY.
 cd /verif || exit 2
 git -C /repo diff --quiet || { echo "repo dirty"; exit 2; }
-for d in ${1:-seeded/*}; do
+for d in ${1:-seeded/*/}; do d=${d%/}
   name=$(basename "$d")
   chk=$(python3 -c "import json,sys; m=json.load(open('$d/meta.json')); print(m['check_run'].split('./check ')[1].split()[0])")
   if ! git -C /repo apply --check "/verif/$d/patch.diff" 2>/dev/null; then echo "$name NOAPPLY"; continue; fi
